@@ -15,3 +15,10 @@ package cmd
 
 //@ func ti/cmd.PrintTargetClassExtends
 //@   witness order:loop0.early-exit.unique#0 "class P\nend\nclass Q\nend\nmodule M\n  class B < P\n  end\nend\nclass B < Q\nend\n" args "--extends --class=B" expect-varies "12"
+
+//@ # the class nodes are visited in a fixed order: total order separating distinct nodes
+//@ func ti/cmd.compareClassNode
+//@   safe
+//@   ensures[C05] result == 0 ==> a == b
+//@   ensures[C05] (result < 0) == (selfcall(b, a) > 0)
+//@   ensures[C05] forall(c, "ti/base.ClassNode", result < 0 && selfcall(b, c) < 0 ==> selfcall(a, c) < 0)
